@@ -14,6 +14,9 @@ State: the log of launch outcomes of the pool since the last reset, and the cond
   shortest history that reproduces it (True: one success; False: the least number of failures that fill
   half of the window; Unknown: nothing);
 * nothing else touches either (other pools, NodeClaims of other NodePool objects, idle reconciles);
+* a launch attempt is ONE outcome — a success if its Node joined, a failure if the NodeClaim was given up —
+  whenever and however often the controller looks at the NodeClaim and whatever API calls failed and were
+  retried in between;
 * the tracker's status and both what-if verdicts are the health of the window / of the window after
   the hypothetical outcome.
 -/
@@ -44,22 +47,50 @@ def recordFailure (s : S) : S :=
   let log := s.log ++ [false]
   { log := log, cond := if healthOf log = .unhealthy then .false_ else s.cond }
 
+def recordSuccess (s : S) : S :=
+  let log := s.log ++ [true]
+  { log := log, cond := if healthOf log = .healthy then .true_ else s.cond }
+
+/-- One launch attempt is one outcome: however late, however often the controller looks at the NodeClaim,
+    and whatever the API server answered in between (the `Fault` an event carries is invisible here). -/
 def step (s : S) : Ev → S
-  | .success =>
-    let log := s.log ++ [true]
-    { log := log, cond := if healthOf log = .healthy then .true_ else s.cond }
-  | .failure => recordFailure s
+  | .success _ => recordSuccess s
+  -- the Node joined: a successful launch, also when the controller notices only after its own timeout
+  | .lateSuccess _ => recordSuccess s
+  | .slowSuccess _ => recordSuccess s
+  | .failure _ => recordFailure s
+  | .launchFailure _ => recordFailure s
   -- one launch attempt is one outcome, however late the controller notices that it failed
-  | .lateFailure => recordFailure s
+  | .lateFailure _ => recordFailure s
   | .noise => s
   | .resync => s
-  | .poolEdit => { cond := .unknown, log := [] }
-  | .classEdit => { cond := .unknown, log := [] }
+  | .poolEdit _ => { cond := .unknown, log := [] }
+  | .classEdit _ => { cond := .unknown, log := [] }
   | .restart =>
     { s with log := match s.cond with
         | .true_ => [true]
         | .false_ => List.replicate seedFailures false
         | .unknown => [] }
+
+/-! ### The known deviation, described at the operator's level
+
+Finding `C20-success-lost-on-nodepool-api-failure`: a registration whose NodePool call fails is never
+counted — the `Get`, or the status patch when one is needed (the window turns healthy and the
+condition is not True yet).  `stepKnown` is the specification with exactly these attempts dropped; it
+is used to state precisely how far the controllers are from `step` (theorem
+`C20_pool_observations_known`) and to classify a violation — never to judge. -/
+
+open Karp.PoolHealth (Fault) in
+def lostSuccess (s : S) (f : Fault) : Bool :=
+  f = .get || (f = .patch && healthOf (s.log ++ [true]) = .healthy && s.cond != .true_)
+
+def lost (s : S) : Ev → Bool
+  | .success f => lostSuccess s f
+  | .lateSuccess f => lostSuccess s f
+  | .slowSuccess f => lostSuccess s f
+  | _ => false
+
+def stepKnown (s : S) (e : Ev) : S := if lost s e then s else step s e
 
 def condCode : C → Nat
   | .unknown => 0
@@ -82,5 +113,18 @@ def run (s : S) : List Ev → S
 def observations (s : S) : List Ev → List (List Nat)
   | [] => []
   | e :: es => observe (step s e) :: observations (step s e) es
+
+def runKnown (s : S) : List Ev → S
+  | [] => s
+  | e :: es => runKnown (stepKnown s e) es
+
+def observationsKnown (s : S) : List Ev → List (List Nat)
+  | [] => []
+  | e :: es => observe (stepKnown s e) :: observationsKnown (stepKnown s e) es
+
+/-- no attempt of the script falls under the known deviation -/
+def noLoss (s : S) : List Ev → Bool
+  | [] => true
+  | e :: es => !lost s e && noLoss (step s e) es
 
 end Karp.Spec.PoolHealth
